@@ -95,6 +95,7 @@ func genStrategy(ch chooser, n, t, self int, L int64) ByzStrategy {
 	s.Apology = ch.Pick("apology", 3, 2, 2)
 	s.AnswerLate = ch.Pick("answerLate", 3, 1) == 1
 	s.Repeat = ch.Pick("repeat", 2, 1) == 1
+	s.ExtraApology = ch.Pick("extraApology", 3, 1, 1)
 	s.LateDeal = ch.Pick("lateDeal", 6, 1) == 1
 	s.LateAcc = ch.Pick("lateAcc", 3, 1) == 1
 	s.LateApo = ch.Pick("lateApo", 3, 1) == 1
@@ -259,7 +260,7 @@ func genScenario(ch chooser) Scenario {
 	return sc
 }
 
-const c07Rule = "case = (n in 3..5, t in 1..n, phase length L in {6,8,10} blocks, keyper-set order, check-in fork on/off, Byzantine subset of size <= n-t each with a strategy commitment{correct,none,wrong degree,duplicate,points at infinity} x eval per receiver{correct,wrong,none} x accusation{none,false against a drawn set} x apology{correct,wrong,none} x repeated-address copies {none, before every accusation/apology/eval message a copy whose address list repeats its first entry} x timing per message class{offset inside the phase, first block after the phase; accusations and apologies also 1-3 blocks before their phase}, and a block schedule for 3L+ blocks: order of the honest keypers' sync+send steps per block, per-step send budget {unlimited,1,2}, extra steps, position of the Byzantine transactions inside the block; 1/4 of the runs are unfair: an honest keyper takes no step for 1..L blocks; in 1/6 of the runs a second keyper set (the same keypers, rotated order, index 2) becomes due on the main chain at a drawn block of the dealing, accusing or apologizing phase of the first DKG, the keypers vote for it and a second eon's DKG overlaps the first (in a third of them exactly one or two phase lengths later); every oracle is then evaluated for both eons, Byzantine keypers act in the first eon only and are silent members of the second); honest keypers run smobserver.SyncAppWithDB + KeyperCore.handleOnChainChanges + fx.SendShutterMessages on their own pgfake database against the real ShutterApp behind faketm. Non-trivial = the chain carries >=1 accusation made in the accusing phase, or a Byzantine DKG message accepted outside its phase or answered 'seen' (duplicate), or a wrong-degree commitment. Distinct = hash of scenario + schedule."
+const c07Rule = "case = (n in 3..5, t in 1..n, phase length L in {6,8,10} blocks, keyper-set order, check-in fork on/off, Byzantine subset of size <= n-t each with a strategy commitment{correct,none,wrong degree,duplicate,points at infinity} x eval per receiver{correct,wrong,none} x accusation{none,false against a drawn set} x apology{correct,wrong,none} x repeated-address copies {none, before every accusation/apology/eval message a copy whose address list repeats its first entry} x apology with an extra entry {none, behind, in front of the genuine ones} addressed to a keyper that never accused the sender and carrying an out-of-range evaluation x timing per message class{offset inside the phase, first block after the phase; accusations and apologies also 1-3 blocks before their phase}, and a block schedule for 3L+ blocks: order of the honest keypers' sync+send steps per block, per-step send budget {unlimited,1,2}, extra steps, position of the Byzantine transactions inside the block; 1/4 of the runs are unfair: an honest keyper takes no step for 1..L blocks; in 1/6 of the runs a second keyper set (the same keypers, rotated order, index 2) becomes due on the main chain at a drawn block of the dealing, accusing or apologizing phase of the first DKG, the keypers vote for it and a second eon's DKG overlaps the first (in a third of them exactly one or two phase lengths later); every oracle is then evaluated for both eons, Byzantine keypers act in the first eon only and are silent members of the second); honest keypers run smobserver.SyncAppWithDB + KeyperCore.handleOnChainChanges + fx.SendShutterMessages on their own pgfake database against the real ShutterApp behind faketm. Non-trivial = the chain carries >=1 accusation made in the accusing phase, or a Byzantine DKG message accepted outside its phase or answered 'seen' (duplicate), or a wrong-degree commitment. Distinct = hash of scenario + schedule."
 
 func c07Labels(sc Scenario, st agreeStats, ref *refRecord, r *Run) (labels []string, nontrivial bool) {
 	labels = append(labels, fmt.Sprintf("n=%d", sc.N), fmt.Sprintf("t=%d", sc.T), fmt.Sprintf("L=%d", sc.L), fmt.Sprintf("byz=%d", len(sc.Byz)))
@@ -296,6 +297,9 @@ func c07Labels(sc Scenario, st agreeStats, ref *refRecord, r *Run) (labels []str
 		add("byz-apology:" + apNames[s.Apology])
 		if s.Repeat {
 			add("byz-repeated-address-in-a-list")
+		}
+		if s.ExtraApology != 0 && s.Apology != apNone {
+			add("byz-apology-with-unsolicited-out-of-range-entry")
 		}
 		if s.LateDeal {
 			add("byz-timing:dealing-late")
@@ -509,7 +513,7 @@ func (c exhCase) scenario(idx int) Scenario {
 			others = append(others, p)
 		}
 	}
-	s := ByzStrategy{Commit: c.Commit, DegDelta: []int{1, -1}[idx%2], Eval: map[int]int{others[0]: c.EvalA, others[1]: c.EvalB}, Apology: c.Apo, Repeat: idx%3 == 1}
+	s := ByzStrategy{Commit: c.Commit, DegDelta: []int{1, -1}[idx%2], Eval: map[int]int{others[0]: c.EvalA, others[1]: c.EvalB}, Apology: c.Apo, Repeat: idx%3 == 1, ExtraApology: []int{0, 0, 1, 2}[idx%4]}
 	switch c.Acc {
 	case 1:
 		s.Accuse = []int{others[0]}
